@@ -32,6 +32,8 @@ Maxes_2 == {<<0, 0, 0, 0, 0, 0, 0, 2>>}
 Maxes_both == Maxes_none \cup Maxes_2
 Buf_none == {{}}
 Buf_B == {{B}}
+Buf_noneB == {{}, {B}}
+Buf_some == {{B}, {A, B}, {R2}}
 Buf_all == {{}, {A}, {B}, {A, B}, {B, Cc}, {R2}}
 Bit(n, b) == (n \div b) % 2 = 1
 Cfgs == {[allowId |-> Bit(a, 1), allowHier |-> Bit(a, 2), allowSize |-> Bit(a, 4), hasMax |-> mx # <<>>, max |-> mx,
@@ -87,5 +89,6 @@ Inv_C12 == (AtEnd /\ Strict(cfg) /\ cfg.buffered = {} /\ cfg.eofClose /\ out[Len
                LET why == P12!Rel(S3, inp, out, ParseAll(S3, cfg, Take(inp, c)), c) IN
                why = "" \/ (PrintT(<<why, inp, c, out, ParseAll(S3, cfg, Take(inp, c))>>) /\ FALSE)
 \* every terminal behaviour, for replay into the real iterator (MC_Reader_Gen configurations)
-Emit == AtEnd => PrintT(ToString(<<"REPLAY", inp, cfg.allowId, cfg.allowHier, cfg.allowSize, cfg.eofClose>>))
+Kinds == [i \in 1..Len(out) |-> IF out[i].res = "item" THEN out[i].kind ELSE IF out[i].res = "err" THEN out[i].ekind ELSE "none"]
+Emit == AtEnd => PrintT(ToString(<<"REPLAY", inp, cfg.allowId, cfg.allowHier, cfg.allowSize, cfg.eofClose, cfg.buffered, Kinds>>))
 =============================================================================
